@@ -15,6 +15,7 @@
   -- API:
   --   Cx.Impl.Kdf.hkdf_extract D digest salt ikm prkLen : Option Bytes
   --   Cx.Impl.Kdf.hkdf_expand  D digest prk info okmLen : Option Bytes
+  --   Cx.Impl.Kdf.hkdf_expand_old  (the function before `assert!(prk.len() >= digest.output_bytes())`; witness theorems only)
   --   Cx.Impl.Kdf.calculate_block M mac salt c idx scratch blockLen : Option (μ × Bytes × Bytes)
   --   Cx.Impl.Kdf.pbkdf2 M mac salt c outputLen : Option (μ × Bytes)
   --   Cx.Impl.Kdf.salsa20_8 / xor / scrypt_block_mix / integerify / scrypt_ro_mix
@@ -85,6 +86,23 @@ def hkdf_expand_loop (info : Bytes) : List Nat → Hmac δ → Bytes → Nat →
 
 /-- `pub fn hkdf_expand<D: Digest>(mut digest: D, prk: &[u8], info: &[u8], okm: &mut [u8])` -/
 def hkdf_expand (digest : δ) (prk info : Bytes) (okmLen : Nat) : Option Bytes :=
+  match D.reset digest with                                  -- digest.reset();
+  | none => none
+  | some digest =>
+    if ¬ prk.length ≥ D.output_bytes digest then none else   -- assert!(prk.len() >= digest.output_bytes());
+    match Hmac.new D digest prk with                         -- let mut mac = Hmac::new(digest, prk);
+    | none => none
+    | some mac =>
+      let os := Hmac.output_bytes D mac
+      let t : Bytes := zeros os
+      if os = 0 then none                                    -- chunks_mut(0) panics
+      else hkdf_expand_loop D info (chunkLens os okmLen) mac t 0 []
+
+/-- `hkdf_expand` as it was before the repair of defect (m) (no `assert!(prk.len() >= digest.output_bytes())`): the
+    documented domain "prk - The pseudorandom key of at least `digest.output_bytes()` octets" was not checked, a
+    shorter PRK was used as the HMAC key and a value returned.  Kept as documentation together with its witness
+    theorems (`Props.C10.hkdf_expand_old_accepts_short_prk`, `Props.C20.Refusal.hkdf_expand_old_accepts_short_prk`). -/
+def hkdf_expand_old (digest : δ) (prk info : Bytes) (okmLen : Nat) : Option Bytes :=
   match D.reset digest with                                  -- digest.reset();
   | none => none
   | some digest =>
